@@ -175,6 +175,17 @@ theorem checkExpired_inv (c : Cfg) (s : St) (now : Nat)
     · rw [if_neg hgt]
       left; exact close_inv c s _
 
+theorem schedule_keeps (s : St) :
+    (schedule s).lastSeen = s.lastSeen ∧ (schedule s).lastPing = s.lastPing ∧ (schedule s).status = s.status ∧
+    (schedule s).nextExpire = s.nextExpire ∧ (schedule s).nextPong = s.nextPong ∧ (schedule s).exp = s.exp := by
+  unfold schedule
+  by_cases h : s.status = .closed
+  · rw [if_pos h]; simp
+  · rw [if_neg h]
+    cases pick s with
+    | none => simp
+    | some ot => obtain ⟨o, t⟩ := ot; simp
+
 theorem expire_inv (c : Cfg) (s : St) (now : Nat) (hsec : 0 < c.sec)
     (hst : s.status = .connected) (ha : s.auth = true) (hp : 0 < s.nextPresence)
     (hexp : 0 < s.exp) (hle : s.exp * c.sec ≤ now) : Inv c (expire c s now).1 := by
@@ -192,10 +203,17 @@ theorem expire_inv (c : Cfg) (s : St) (now : Nat) (hsec : 0 < c.sec)
       | error => exact close_inv c _ _
       | expired => exact close_inv c _ _
       | zero =>
-        rcases checkExpired_inv c { s with rhr := rest } now hst ha hp with h | ⟨_, h | ⟨h, _⟩⟩
-        · exact h
-        · simp at h; omega
-        · simp at h; omega
+        have hI : Inv c (disableExpiration { s with rhr := rest }) := by
+          unfold disableExpiration
+          refine schedule_inv c _ hst ha hp ?_
+          intro h0; exact absurd h0 (Nat.lt_irrefl 0)
+        have he0 : (disableExpiration { s with rhr := rest }).exp = 0 := by
+          unfold disableExpiration; rw [(schedule_keeps _).2.2.2.2.2]
+        have hce : checkExpired c (disableExpiration { s with rhr := rest }) now =
+            (disableExpiration { s with rhr := rest }, []) := by
+          unfold checkExpired; rw [if_pos (Or.inr he0)]
+        show Inv c (checkExpired c (disableExpiration { s with rhr := rest }) now).1
+        rw [hce]; exact hI
       | «at» d =>
         by_cases hea : (Int.ofNat (unix c now) + d).toNat > 0
         · simp only [hea, if_true]
@@ -314,10 +332,9 @@ theorem applyRefresh_inv (c : Cfg) (s : St) (now : Nat) (d : Int) (hd : 0 < d)
   have := unix_mul_le c now
   constructor <;> omega
 
-/-- the operations the partial theorem covers: no `Client.Refresh(ExpireAt = 0)` (finding C36-1) and no
-`Client.Refresh` on a connection that has not authenticated yet -/
+/-- the operations the theorem covers: no `Client.Refresh` on a connection that has not authenticated yet
+(on such a connection it replaces or cancels the stale timer) and `NewClient` only once -/
 def Admissible (s : St) : Op → Prop
-  | .srefresh .zero => False
   | .srefresh _ => s.status ≠ .connecting
   | .new => s.status ≠ .connected
   | _ => True
@@ -400,7 +417,10 @@ theorem step_inv (c : Cfg) (s : St) (now : Nat) (op : Op) (hsec : 0 < c.sec) (hn
           cases an with
           | error => exact hI
           | expired => exact close_inv c _ _
-          | zero => exact hI
+          | zero =>
+            show Inv c (disableExpiration s)
+            unfold disableExpiration
+            exact schedule_inv c _ a b hp (fun h0 => absurd h0 (Nat.lt_irrefl 0))
           | «at» d =>
             by_cases hd : d > 0
             · simp only [hd, if_true]; exact applyRefresh_inv c s now d hd a b hp
@@ -410,7 +430,15 @@ theorem step_inv (c : Cfg) (s : St) (now : Nat) (op : Op) (hsec : 0 < c.sec) (hn
     cases an with
     | expired => exact close_inv c _ _
     | error => exact h
-    | zero => exact absurd hadm (by simp [Admissible])
+    | zero =>
+      rcases h with h | ⟨a, _⟩ | ⟨a, b, har, hp, he⟩
+      · rw [if_pos h]; exact Or.inl h
+      · exact absurd a hadm
+      · have hcl : ¬ s.status = .closed := by rw [a]; decide
+        rw [if_neg hcl]
+        show Inv c (disableExpiration s)
+        unfold disableExpiration
+        exact schedule_inv c _ a b hp (fun h0 => absurd h0 (Nat.lt_irrefl 0))
     | «at» d =>
       by_cases hd : d > 0
       · simp only [hd, if_true]
@@ -461,24 +489,13 @@ theorem step_inv (c : Cfg) (s : St) (now : Nat) (op : Op) (hsec : 0 < c.sec) (hn
           · rw [if_neg h2]
             cases an with
             | error => exact hI
-            | expired => dsimp only; exact inv_congr c s _ rfl b.symm rfl rfl rfl rfl rfl rfl rfl hI
+            | expired => exact close_inv c _ _
             | zero => dsimp only; exact inv_congr c s _ rfl b.symm rfl rfl rfl rfl rfl rfl rfl hI
             | «at» d =>
               by_cases hd : d < 0
               · simp only [hd, if_true]; exact hI
               · simp only [hd, if_false]
                 exact inv_congr c s _ rfl b.symm rfl rfl rfl rfl rfl rfl rfl hI
-
-theorem schedule_keeps (s : St) :
-    (schedule s).lastSeen = s.lastSeen ∧ (schedule s).lastPing = s.lastPing ∧ (schedule s).status = s.status ∧
-    (schedule s).nextExpire = s.nextExpire ∧ (schedule s).nextPong = s.nextPong ∧ (schedule s).exp = s.exp := by
-  unfold schedule
-  by_cases h : s.status = .closed
-  · rw [if_pos h]; simp
-  · rw [if_neg h]
-    cases pick s with
-    | none => simp
-    | some ot => obtain ⟨o, t⟩ := ot; simp
 
 theorem applyRefresh_keeps (c : Cfg) (s : St) (now : Nat) (d : Int) :
     (applyRefresh c s now d).lastSeen = s.lastSeen ∧ (applyRefresh c s now d).lastPing = s.lastPing ∧
